@@ -377,7 +377,7 @@ def _memo_return(cx: Cx, ob: Ob, ci, m, s, t, ctx) -> bool:
 
 @obligation("C15-D3", "print/parse inverse: both `curie` properties are prefix + ':' + identifier and ':' is _split's default separator; every from_curie and the string pre-validator go through _split and pass (prefix, identifier[, name]) on in order", floor=6)
 def d3(cx: Cx, ob: Ob) -> None:
-    check_split(cx, ob)
+    check_split(cx, ob, callers="reference")
     sp = cx.fn(f"{API}._split", ob.id)
     d = sp.param("sep")
     sep = d.default.value if d is not None and isinstance(d.default, ast.Constant) else None
